@@ -183,10 +183,13 @@ pub fn run_check(spec: &CheckSpec, tier: Tier) -> i32 {
     std::env::set_var("RAINSIM_DEADLINE_MS", deadline.to_string());
     let skip_seeds = crate::watchdog::skipped_seeds();
     let skip_seeds = &skip_seeds;
+    let worker_counter = AtomicU64::new(0);
+    let worker_counter = &worker_counter;
     std::thread::scope(|scope| {
         for _ in 0..workers() {
             scope.spawn(|| {
                 let mut acc = Acc::default();
+                let mut inflight = crate::supervise::InflightNote::new(worker_counter.fetch_add(1, Ordering::Relaxed) as usize);
                 loop {
                     if stop.load(Ordering::Relaxed) {
                         break;
@@ -205,7 +208,9 @@ pub fn run_check(spec: &CheckSpec, tier: Tier) -> i32 {
                     }
                     let case = (spec.gen)(rs, i, tier);
                     let t_run = Instant::now();
+                    inflight.set(i, rs);
                     let res = (spec.exec)(&case);
+                    inflight.clear();
                     if std::env::var_os("RAINSIM_TIME_RUNS").is_some() && t_run.elapsed().as_secs_f64() > 3.0 {
                         eprintln!("slow run {} ({:016x}): {:.1}s, {} evaluations, {} steps", i, rs, t_run.elapsed().as_secs_f64(), (spec.evals)(&res), res.stats.steps);
                         eprintln!("   keys={} keylen={} ops={} knobs={:?}", case.plan.keys.len(), case.plan.keys.last().map(|k| k.len()).unwrap_or(0), case.plan.ops.len(), case.plan.opens.first());
